@@ -92,6 +92,14 @@ def matrix(thorough):
             out.append(("tuple-element-fin-typed/%s/%s" % (op, ctx), wrap(ctx, [], ["def (x: Int, fin y: Int) := (1, 2)", "y %s 3" % op]), "reject"))
         out.append(("for-tuple-element-fin/%s" % op, "for (x, fin y) in [(1, 2)] do\n    y %s 3\n" % op, "reject"))
         out.append(("for-variable/%s" % op, "for i in 0 .. 3 do\n    i %s 5\n    print(i)\n" % op, "accept"))
+    # binders of match arms: `fin` before the pattern (a name, a tuple of names) is enforced inside the arm
+    for op in OPS:
+        for ctx in ("top", "function", "method"):
+            out.append(("arm-binder-mut/%s/%s" % (op, ctx), wrap(ctx, ["def pq := 3"], ["match pq", "    x =>", "        x %s 4" % op, "        print(x)"]), "accept"))
+            out.append(("arm-binder-fin/%s/%s" % (op, ctx), wrap(ctx, ["def pq := 3"], ["match pq", "    fin x =>", "        x %s 4" % op, "        print(x)"]), "reject"))
+            out.append(("arm-tuple-binder-fin/%s/%s" % (op, ctx), wrap(ctx, ["def pq := (1, 2)"], ["match pq", "    fin (x, y) =>", "        x %s 4" % op, "        print(x + y)"]), "reject"))
+            out.append(("arm-tuple-binder-fin-second/%s/%s" % (op, ctx), wrap(ctx, ["def pq := (1, 2)"], ["match pq", "    fin (x, y) =>", "        y %s 4" % op, "        print(x + y)"]), "reject"))
+            out.append(("arm-binder-fin-after-literal-arm/%s/%s" % (op, ctx), wrap(ctx, ["def pq := 3"], ["match pq", "    1 => print(1)", "    fin x =>", "        x %s 4" % op]), "reject"))
     # reassignment with a value of another type stays rejected, of the same type accepted
     out.append(("type/same", "def x: Int := 1\nx := 2\n", "accept"))
     out.append(("type/other", "def x: Int := 1\nx := \"s\"\n", "reject"))
@@ -107,7 +115,7 @@ def run(chk):
             chk.leanchecker(["MambaVerif.Props.C07"])
     if not ok:
         return
-    scope_common.run_scope(chk, ["assign"], "Mutability", 60 if thorough else 30, 6 if thorough else 4)
+    scope_common.run_scope(chk, ["assign"], "Mutability", 400 if thorough else 30, 8 if thorough else 4)
     cases = matrix(thorough)
     res = sweep.transpile(chk, [t for _, t, _ in cases], annotate_both=False)
     stats = {"accept_ok": 0, "reject_ok": 0, "reject_for_other_reason": 0}
